@@ -12,6 +12,9 @@ UNIVERSES = [
     [0, 5, 7, 300],
     [0, 255, 256, 65535, 65536],
     [1, 2],
+    [-1, 0, 127, 128],
+    [-5, 0, 32767, 32768],
+    [-2, 1, 2 ** 31 - 1, 2 ** 31],
 ]
 BIG_UNIVERSES = [[0, 2 ** 31, 2 ** 40, 7], [-(2 ** 35), 0, 3, 2 ** 63 - 1], [2 ** 31 - 1, 2 ** 31, 2 ** 32, 2 ** 32 + 1]]
 
